@@ -1,3 +1,2 @@
 SPECIFICATION Spec
-INVARIANT NotAccepted
 CHECK_DEADLOCK FALSE
